@@ -5,7 +5,9 @@ use crate::ev::{show, Run, Tier, Violation};
 use crate::fe::Trickle;
 use crate::seeds::{self, Seed};
 use crate::xplore::{self, Caps, StateInfo, System};
-use ruzstd::decoding::{BlockDecodingStrategy as S, FrameDecoder};
+use ruzstd::decoding::{BlockDecodingStrategy as S, FrameDecoder, StreamingDecoder};
+use std::cell::UnsafeCell;
+use std::sync::Arc;
 use serde_json::{json, Value};
 use std::io::{Read, Write};
 use std::sync::atomic::{AtomicU64, Ordering};
@@ -23,6 +25,8 @@ pub enum Op {
     Writer(usize, usize, u8),
     /// decode_from_to(source chunk length from the current position, target length)
     FromTo(usize, usize),
+    /// std::io::Read::read_to_end on the StreamingDecoder
+    ReadToEnd,
 }
 
 pub fn op_json(o: &Op) -> Value {
@@ -35,6 +39,7 @@ pub fn op_json(o: &Op) -> Value {
         Op::Read(n) => json!(["read", n]),
         Op::Writer(p, b, k) => json!(["collect_to_writer", big(p), big(b), k]),
         Op::FromTo(c, t) => json!(["decode_from_to", c, t]),
+        Op::ReadToEnd => json!(["read_to_end"]),
     }
 }
 pub fn op_from(v: &Value) -> Op {
@@ -48,6 +53,7 @@ pub fn op_from(v: &Value) -> Op {
         },
         "collect" => Op::Collect,
         "read" => Op::Read(u(1)),
+        "read_to_end" => Op::ReadToEnd,
         "collect_to_writer" => Op::Writer(u(1), u(2), u(3) as u8),
         _ => Op::FromTo(u(1), u(2)),
     }
@@ -82,8 +88,44 @@ impl Write for Sink {
 pub static DRAIN_MATRIX: [[AtomicU64; 2]; 8] = [const { [const { AtomicU64::new(0) }; 2] }; 8];
 pub const DRAIN_PATHS: [&str; 8] = ["read (retaining window)", "read_all (frame finished)", "collect retaining", "collect final", "collect_to_writer retaining", "collect_to_writer final", "collect_to_writer partial sink", "collect_to_writer failing sink"];
 
+/// the source a StreamingDecoder owns: hands out at most k bytes per call (0 = everything asked for)
+pub struct OwnedTrickle {
+    data: Arc<Vec<u8>>,
+    pos: usize,
+    k: usize,
+}
+impl Read for OwnedTrickle {
+    fn read(&mut self, buf: &mut [u8]) -> std::io::Result<usize> {
+        let n = buf.len().min(if self.k == 0 { usize::MAX } else { self.k }).min(self.data.len() - self.pos);
+        buf[..n].copy_from_slice(&self.data[self.pos..self.pos + n]);
+        self.pos += n;
+        Ok(n)
+    }
+}
+/// the decoder a StreamingDecoder drives, shared with the harness so that its state can be read between calls
+/// (the public type gives no access while streaming). Never touched while a call into the StreamingDecoder runs.
+pub struct SharedDec(Arc<UnsafeCell<FrameDecoder>>);
+impl std::borrow::Borrow<FrameDecoder> for SharedDec {
+    fn borrow(&self) -> &FrameDecoder {
+        unsafe { &*self.0.get() }
+    }
+}
+impl std::borrow::BorrowMut<FrameDecoder> for SharedDec {
+    fn borrow_mut(&mut self) -> &mut FrameDecoder {
+        unsafe { &mut *self.0.get() }
+    }
+}
+pub struct Stream {
+    sd: StreamingDecoder<OwnedTrickle, SharedDec>,
+    cell: Arc<UnsafeCell<FrameDecoder>>,
+}
+unsafe impl Send for Stream {}
+
 pub struct DriveSys {
     pub seed: Seed,
+    /// drive a StreamingDecoder (io::Read) instead of the FrameDecoder's own calls
+    pub stream_mode: bool,
+    frame_arc: Arc<Vec<u8>>,
     pub window: usize,
     /// 0 = whole slice, k > 0 = a reader handing out at most k bytes per call
     pub trickle: usize,
@@ -95,6 +137,7 @@ pub struct DriveSys {
 }
 
 pub struct Live {
+    stream: Option<Stream>,
     dec: FrameDecoder,
     pos: usize,
     delivered: Vec<u8>,
@@ -114,8 +157,17 @@ fn ring_wrapped(d: &FrameDecoder) -> usize {
 
 impl DriveSys {
     pub fn new(seed: Seed, trickle: usize, slice_mode: bool) -> DriveSys {
+        Self::new_mode(seed, trickle, slice_mode, false)
+    }
+    pub fn new_mode(seed: Seed, trickle: usize, slice_mode: bool, stream_mode: bool) -> DriveSys {
         let w = zmodel::walker::walk(&seed.frame, None).expect("seed must be valid");
-        DriveSys { window: w.header.window_size as usize, has_checksum: w.header.checksum_flag, nblocks: w.blocks.len(), seed, trickle, slice_mode, terminal_checks: AtomicU64::new(0), first_terminal: Mutex::new(None) }
+        DriveSys { stream_mode, frame_arc: Arc::new(seed.frame.clone()), window: w.header.window_size as usize, has_checksum: w.header.checksum_flag, nblocks: w.blocks.len(), seed, trickle, slice_mode, terminal_checks: AtomicU64::new(0), first_terminal: Mutex::new(None) }
+    }
+    fn d<'a>(&self, l: &'a Live) -> &'a FrameDecoder {
+        match &l.stream {
+            Some(s) => unsafe { &*s.cell.get() },
+            None => &l.dec,
+        }
     }
     fn take(&self, l: &mut Live, got: &[u8], what: &str) -> Result<(), String> {
         let exp = &self.seed.plain[l.delivered.len().min(self.seed.plain.len())..];
@@ -151,6 +203,12 @@ impl System for DriveSys {
     type Key = (usize, u64, usize, bool, Option<u32>, Option<(usize, usize, usize)>, Option<u32>, usize, u8);
     type Live = Live;
     fn fresh(&self) -> Live {
+        if self.stream_mode {
+            let cell = Arc::new(UnsafeCell::new(FrameDecoder::new()));
+            let sd = StreamingDecoder::new_with_decoder(OwnedTrickle { data: self.frame_arc.clone(), pos: 0, k: self.trickle }, SharedDec(cell.clone())).expect("seed header");
+            let pos = sd.get_ref().pos;
+            return Live { stream: Some(Stream { sd, cell }), dec: FrameDecoder::new(), pos, delivered: vec![], errored: false, fine: 0 };
+        }
         let mut dec = FrameDecoder::new();
         let mut pos = 0;
         if !self.slice_mode {
@@ -158,10 +216,11 @@ impl System for DriveSys {
             dec.reset(&mut src).expect("seed header");
             pos = self.seed.frame.len() - src.len();
         }
-        Live { dec, pos, delivered: vec![], errored: false, fine: 0 }
+        Live { stream: None, dec, pos, delivered: vec![], errored: false, fine: 0 }
     }
     fn key(&self, l: &Live) -> Self::Key {
-        (l.dec.blocks_decoded(), l.dec.bytes_read_from_source(), l.delivered.len(), l.dec.is_finished(), l.dec.get_checksum_from_data(), l.dec.verif_ring_state(), l.dec.get_calculated_checksum(), l.pos, l.fine)
+        let d = self.d(l);
+        (d.blocks_decoded(), d.bytes_read_from_source(), l.delivered.len(), d.is_finished(), d.get_checksum_from_data(), d.verif_ring_state(), d.get_calculated_checksum(), l.pos, l.fine)
     }
     fn enabled(&self, l: &Live) -> Vec<Op> {
         let mut ops = vec![];
@@ -169,6 +228,17 @@ impl System for DriveSys {
             return ops;
         }
         let w = self.window;
+        if self.stream_mode {
+            // this system is small (no sinks, no budgets): more and finer read sizes than in the other two
+            let fine_ok = l.fine < 6;
+            for n in [0usize, 1, 7, 100, 333, w - 1, w, w + 1, 2 * w + 3, 1 << 20] {
+                if n == 0 || n >= w || fine_ok {
+                    ops.push(Op::Read(n));
+                }
+            }
+            ops.push(Op::ReadToEnd);
+            return ops;
+        }
         if self.slice_mode {
             let left = self.seed.frame.len() - l.pos.min(self.seed.frame.len());
             let started = l.dec.bytes_read_from_source() > 0;
@@ -203,6 +273,45 @@ impl System for DriveSys {
         ops
     }
     fn step(&self, l: &mut Live, op: &Op) -> Result<(), String> {
+        if self.stream_mode {
+            let plain_len = self.seed.plain.len();
+            match op {
+                Op::Read(n) => {
+                    let s = l.stream.as_mut().unwrap();
+                    let mut b = vec![0u8; *n];
+                    let k = s.sd.read(&mut b).map_err(|e| format!("StreamingDecoder::read failed on a valid frame: {e}"))?;
+                    l.pos = s.sd.get_ref().pos;
+                    if k > *n {
+                        return Err(format!("StreamingDecoder::read({n}) reports {k} bytes"));
+                    }
+                    if k == 0 && *n > 0 && l.delivered.len() < plain_len {
+                        return Err(format!("StreamingDecoder::read({n}) returned 0 (end of stream) after {} of {plain_len} content bytes", l.delivered.len()));
+                    }
+                    self.take(l, &b[..k], "StreamingDecoder::read()")?;
+                    if *n > 0 && *n < self.window {
+                        l.fine += 1;
+                    }
+                }
+                Op::ReadToEnd => {
+                    let s = l.stream.as_mut().unwrap();
+                    let mut v = vec![];
+                    let k = s.sd.read_to_end(&mut v).map_err(|e| format!("read_to_end on the StreamingDecoder failed on a valid frame: {e}"))?;
+                    l.pos = s.sd.get_ref().pos;
+                    if k != v.len() {
+                        return Err(format!("read_to_end reports {k} bytes, {} arrived", v.len()));
+                    }
+                    self.take(l, &v, "read_to_end()")?;
+                    if l.delivered.len() != plain_len {
+                        return Err(format!("read_to_end returned after {} of {plain_len} content bytes", l.delivered.len()));
+                    }
+                }
+                other => return Err(format!("MODEL: {other:?} is not an operation of the streaming system")),
+            }
+            if self.d(l).bytes_read_from_source() as usize != l.pos {
+                return Err(format!("bytes_read_from_source() = {} but {} bytes were taken from the source", self.d(l).bytes_read_from_source(), l.pos));
+            }
+            return Ok(());
+        }
         let wrapped = ring_wrapped(&l.dec);
         let finished_before = l.dec.is_finished();
         match op {
@@ -269,6 +378,7 @@ impl System for DriveSys {
                 l.pos += rd;
                 self.take(l, &tgt[..wr], "decode_from_to()")?;
             }
+            Op::ReadToEnd => return Err("MODEL: read_to_end belongs to the streaming system".into()),
         }
         let fine = match op {
             Op::Read(n) => *n > 0 && *n < self.window,
@@ -286,7 +396,8 @@ impl System for DriveSys {
         Ok(())
     }
     fn on_state(&self, l: &Live) -> Result<StateInfo, String> {
-        if l.dec.is_finished() && l.dec.can_collect() == 0 && (l.pos > 0) {
+        let dec = self.d(l);
+        if dec.is_finished() && dec.can_collect() == 0 && (l.pos > 0) {
             // terminal: everything delivered, exact consumption, checksums
             if l.delivered != self.seed.plain {
                 return Err(format!("finished and drained, but {} of {} content bytes were delivered", l.delivered.len(), self.seed.plain.len()));
@@ -295,13 +406,13 @@ impl System for DriveSys {
                 return Err(format!("finished after consuming {} of the frame's {} bytes", l.pos, self.seed.frame.len()));
             }
             let want = zmodel::xxh::checksum32(&self.seed.plain);
-            if l.dec.get_calculated_checksum() != Some(want) {
-                return Err(format!("[C08] calculated checksum {:?} after all output was taken; XXH64 of the delivered bytes is {want:#x}", l.dec.get_calculated_checksum()));
+            if dec.get_calculated_checksum() != Some(want) {
+                return Err(format!("[C08] calculated checksum {:?} after all output was taken; XXH64 of the delivered bytes is {want:#x}", dec.get_calculated_checksum()));
             }
-            if self.has_checksum && l.dec.get_checksum_from_data() != Some(want) {
-                return Err(format!("[C08] checksum from data {:?}, the frame stores {want:#x}", l.dec.get_checksum_from_data()));
+            if self.has_checksum && dec.get_checksum_from_data() != Some(want) {
+                return Err(format!("[C08] checksum from data {:?}, the frame stores {want:#x}", dec.get_checksum_from_data()));
             }
-            if !self.has_checksum && l.dec.get_checksum_from_data().is_some() {
+            if !self.has_checksum && dec.get_checksum_from_data().is_some() {
                 return Err("[C08] a checksum is reported for a frame without one".into());
             }
             self.terminal_checks.fetch_add(1, Ordering::Relaxed);
@@ -390,9 +501,18 @@ pub fn explore(run: &mut Run, tier: Tier, prop: &str) -> Totals {
     for s in frames(tier).into_iter().take(2) {
         systems.push(DriveSys::new(s, 0, true));
     }
+    // the io::Read front end: every sequence of read sizes (and read_to_end) on a StreamingDecoder
+    for s in frames(tier) {
+        if s.frame.len() > 20_000 {
+            continue;
+        }
+        for trickle in tier.pick(vec![0usize, 3], vec![0, 1, 3, 5]) {
+            systems.push(DriveSys::new_mode(s.clone(), trickle, false, true));
+        }
+    }
     for sys in &systems {
         let (st, found) = xplore::bfs(sys, &caps);
-        let mode = if sys.slice_mode { "decode_from_to".to_string() } else if sys.trickle == 0 { "reader (slice)".to_string() } else { format!("reader ({} byte(s) per read)", sys.trickle) };
+        let mode = if sys.stream_mode { format!("StreamingDecoder over a reader handing out {} per call", if sys.trickle == 0 { "everything".to_string() } else { format!("{} byte(s)", sys.trickle) }) } else if sys.slice_mode { "decode_from_to".to_string() } else if sys.trickle == 0 { "reader (slice)".to_string() } else { format!("reader ({} byte(s) per read)", sys.trickle) };
         println!("{prop} [{} | {mode}]: states={} transitions={} depth={} terminal_states={} exhausted={} {:.1}s {:?}", sys.seed.name, st.states, st.transitions, st.max_depth, st.terminal_states, st.exhausted, st.wall_s, st.cap_hit);
         if let Some(n) = &st.nondeterminism {
             run.machinery_error(format!("[{}] {n}", sys.seed.name));
@@ -417,7 +537,7 @@ pub fn explore(run: &mut Run, tier: Tier, prop: &str) -> Totals {
                 // routed to the other property's run (it performs the same exploration)
                 continue;
             }
-            run.violation(Violation { identity: format!("{}:{opname}:{}", if sys.slice_mode { "slice" } else { "reader" }, crate::ev::truncate(&f.msg, 48)), what: format!("frame [{}] ({mode}), driver program {:?}: {}", sys.seed.name, f.ops, f.msg), replay: json!({"frame_name": sys.seed.name, "frame": show(&sys.seed.frame), "trickle": sys.trickle, "slice_mode": sys.slice_mode, "ops": f.ops.iter().map(op_json).collect::<Vec<_>>()}) });
+            run.violation(Violation { identity: format!("{}:{opname}:{}", if sys.stream_mode { "stream" } else if sys.slice_mode { "slice" } else { "reader" }, crate::ev::truncate(&f.msg, 48)), what: format!("frame [{}] ({mode}), driver program {:?}: {}", sys.seed.name, f.ops, f.msg), replay: json!({"frame_name": sys.seed.name, "frame": show(&sys.seed.frame), "trickle": sys.trickle, "slice_mode": sys.slice_mode, "stream_mode": sys.stream_mode, "ops": f.ops.iter().map(op_json).collect::<Vec<_>>()}) });
         }
         if st.terminal_states > 0 && run.cov.get("samples").is_none() {
             run.sample(json!({"frame": sys.seed.name, "mode": mode, "states": st.states, "transitions": st.transitions}));
@@ -451,7 +571,7 @@ pub fn do_replay(_tier: Tier, r: &Value, prop: &str) -> i32 {
         println!("unknown frame {name}");
         return 2;
     };
-    let sys = DriveSys::new(seed, r["trickle"].as_u64().unwrap_or(0) as usize, r["slice_mode"].as_bool().unwrap_or(false));
+    let sys = DriveSys::new_mode(seed, r["trickle"].as_u64().unwrap_or(0) as usize, r["slice_mode"].as_bool().unwrap_or(false), r["stream_mode"].as_bool().unwrap_or(false));
     let ops: Vec<Op> = r["ops"].as_array().unwrap().iter().map(op_from).collect();
     let mut res = vec![];
     for _ in 0..2 {
